@@ -54,6 +54,7 @@ unsigned g_lib_calls;
 bool g_lib_failed;        /* a library call returned a failure code */
 bool g_lib_end;           /* a library call reported end of stream */
 bool g_stalled;           /* last call: "go on" without any progress */
+bool g_fail_stalled;      /* last call: failure without any progress */
 bool g_compress;
 int g_mode;               /* effective flush mode (out of range = NONE) */
 
@@ -76,6 +77,8 @@ static inline void lib_enter(const void *next_in, size_t avail_in,
 #ifndef ADAPTER_LIB_BOUNDS_STALLS
 	VERIF_ASSERT(!g_stalled, "C15.adapter.no_spin");
 #endif
+	/* a failed call that moved nothing will move nothing next time either */
+	VERIF_ASSERT(!g_fail_stalled, "C15.adapter.no_spin");
 	VERIF_ASSUME(g_lib_calls < LIBCALLS);
 	g_lib_calls++;
 }
@@ -84,6 +87,7 @@ static inline void lib_enter(const void *next_in, size_t avail_in,
 static inline void lib_leave(uint32_t c, uint32_t p, bool goes_on)
 {
 	g_stalled = goes_on && c == 0 && p == 0;
+	g_fail_stalled = g_lib_failed && c == 0 && p == 0;
 }
 
 static inline void lib_progress(size_t avail_in, size_t avail_out,
